@@ -345,7 +345,7 @@ def check_caches(run, modules, rule, functions=None, prog=None):
     if prog is not None:
         # values memoised in a field / derived once in the constructor follow the fields they were computed from (shared memo rules)
         from .effects import Effects
-        from .rules._memo import check_inline_memos, check_ctor_derived, selfcheck
+        from .rules._memo import check_inline_memos, check_ctor_derived, check_shared_defaults, selfcheck
         selfcheck()
         eff = Effects(prog)
         mods = {id(m) for m in modules}
@@ -353,6 +353,7 @@ def check_caches(run, modules, rule, functions=None, prog=None):
         try:
             nstores += check_inline_memos(run, rule, prog, eff, classes, describe=False)
             nstores += check_ctor_derived(run, rule, prog, eff, classes)
+            nstores += check_shared_defaults(run, rule, prog, eff, classes)
         except RecursionError:
             run.undecided(rule, 'memo rules', 'class graph too deep')
     run.subject(rule)
